@@ -92,6 +92,28 @@ def _stream_ints(fi):
     return out
 
 
+def _consumes_or_exits(fi, loop):
+    """`x = <stream>.read(...)` at the top level of the loop body, followed (top level, no `continue` anywhere in the loop) by
+    `if not x: break / raise / return` (or len(x) == 0): an iteration that does not leave the loop consumed at least one byte of
+    a finite input"""
+    if any(isinstance(x, ast.Continue) for x in ast.walk(loop)) or loop.orelse:
+        return False
+    got = None
+    for st in loop.body:
+        if isinstance(st, ast.Assign) and len(st.targets) == 1 and isinstance(st.targets[0], ast.Name) and isinstance(st.value, ast.Call) \
+                and isinstance(st.value.func, ast.Attribute) and st.value.func.attr == "read" and isinstance(st.value.func.value, ast.Name) \
+                and st.value.func.value.id in fi.params:
+            got = st.targets[0].id
+            continue
+        if got and isinstance(st, ast.If) and st.body and isinstance(st.body[-1], (ast.Break, ast.Raise, ast.Return)):
+            t = norm(st.test)
+            if t in ("not %s" % got, "len(%s) == 0" % got, "%s == b''" % got, "not len(%s)" % got, "len(%s) < 1" % got):
+                return True
+        if got and any(isinstance(x, ast.Name) and x.id == got and isinstance(x.ctx, ast.Store) for x in ast.walk(st)):
+            got = None
+    return False
+
+
 def _loops(fi):
     """(kind, node, iter expr) for for-loops and comprehension generators"""
     out = []
@@ -117,6 +139,9 @@ def r1(ctx):
         for (kind, node, it, body) in _loops(fi):
             n_loops += 1
             if kind == "while":
+                if _consumes_or_exits(fi, node):
+                    ctx.holds("C14.R1", fi, node, "`while` loop: every iteration reads from the stream and leaves the loop when the read returns nothing (bounded by the input size)")
+                    continue
                 ctx.violated("C14.R1", fi, node, "`while` loop in the decoder graph", "termination of a while loop on hostile input is not evident from its shape", line=node.lineno)
                 continue
             dep = None
@@ -244,7 +269,12 @@ def r2(ctx):
         caps = [g for g in walk_own(fi.node) if isinstance(g, ast.If) and " > MAX_BYTES_LENGTH" in norm(g.test) and any(isinstance(x, ast.Raise) for x in g.body)]
         ty = [g for g in walk_own(fi.node) if isinstance(g, ast.If) and norm(g.test).startswith("not isinstance(") and any(isinstance(x, ast.Raise) for x in g.body)]
         rd = [c for c in calls_named(fi, "read")]
-        ok = len(caps) == 1 and len(ty) == 1 and len(rd) == 1 and ty[0].lineno < caps[0].lineno < rd[0].lineno
+        ok = len(caps) == 1 and len(ty) == 1 and len(rd) >= 1 and ty[0].lineno < caps[0].lineno < min(c.lineno for c in rd)
+        if ok:
+            cfg = cfg_of(fi)
+            tn = [n for n in cfg.nodes if n.kind == "test" and n.stmt is ty[0]]
+            cn = [n for n in cfg.nodes if n.kind == "test" and n.stmt is caps[0]]
+            ok = bool(tn) and bool(cn) and all(cfg.dominates(tn[0].id, cfg.node_of(c).id) and cfg.dominates(cn[0].id, cfg.node_of(c).id) for c in rd)
         ctx.check(ok, "C14.R2", fi, "%s: isinstance(int) test, then cap, then read" % rname, witness=[norm(g.test) for g in ty + caps])
 
 
